@@ -27,6 +27,7 @@ const (
 	c19KEnd     = 3
 	c19KRelCall = 4
 	c19KRelRet  = 5
+	c19KRead    = 6 // server scenarios: the receive loop has read request j (it hands it to the pool right away)
 )
 
 // c19Scenario is one configuration of the pool and of its environment.
@@ -37,8 +38,9 @@ type c19Scenario struct {
 	Jobs  int    `json:"jobs"`  // jobs per submitter
 	Dur   int    `json:"dur"`   // 0 none, 1 Gosched, 2 50us, 3 2ms, 4 mixed
 	Procs int    `json:"procs"` // GOMAXPROCS of the child
-	Mode  string `json:"mode"`  // drain | race | saturated | idle | tcp-drain | tcp-saturated | tcp-shutdown | udp-drain | udp-saturated (pool inside a real transport.TarsServer)
+	Mode  string `json:"mode"`  // drain | race | saturated | idle | tcp-drain | tcp-saturated | tcp-shutdown | tcp-late-accept | udp-drain | udp-saturated (pool inside a real transport.TarsServer)
 	Seed  int64  `json:"seed"`
+	Hold  int    `json:"hold_ms,omitempty"` // saturated: how long the started jobs keep running after Release was called (default 25 ms)
 }
 
 // c19Case is a scenario plus what was observed (its own replay).
@@ -112,7 +114,7 @@ func c19RunScenario(sc c19Scenario) c19ChildOut {
 	phase.Store("start")
 	var running, high int32
 	rng := rand.New(rand.NewSource(sc.Seed))
-	durOf := make([]int, total+1)
+	durOf := make([]int, total+4) // three more for the late submitter of the race scenarios
 	for i := range durOf {
 		d := sc.Dur
 		if d == 4 {
@@ -247,8 +249,15 @@ func c19RunScenario(sc c19Scenario) c19ChildOut {
 				}
 			}
 			phase.Store("release")
+			lateSubmits := rng.Intn(2) == 0
+			lateFor := time.Duration(500+rng.Intn(2500)) * time.Microsecond
 			if !waitCh(release(), "release-return") {
 				return
+			}
+			if lateSubmits { // submitters go on sending into the released pool for a while, and a new one arrives: none of these jobs may ever start
+				subWG.Add(1)
+				go submitter(sc.Subs, 3)
+				time.Sleep(lateFor)
 			}
 			close(quit)
 			sd := make(chan struct{})
@@ -261,6 +270,9 @@ func c19RunScenario(sc c19Scenario) c19ChildOut {
 			// Release is called now and must not return before the gate opens
 			phase.Store("submit")
 			n := sc.W + 1 + sc.Q
+			if sc.Hold > 0 { // exactly the workers: the dispatcher is idle in its select and takes the stop request at once
+				n = sc.W
+			}
 			sc.Jobs = n
 			subWG.Add(1)
 			go submitter(0, n)
@@ -286,11 +298,16 @@ func c19RunScenario(sc c19Scenario) c19ChildOut {
 			}
 			time.Sleep(15 * time.Millisecond) // room for a surplus worker to show up
 			phase.Store("release")
+			hold := 25 * time.Millisecond
+			if sc.Hold > 0 { // long jobs: Release has to wait for them however long they run (no internal grace period)
+				hold = time.Duration(sc.Hold) * time.Millisecond
+			}
+			tRel := time.Now()
 			rel := release()
 			select {
 			case <-rel: // already reported by release() through the running counter; make sure it is
-				fail("C19/release-returned-while-running", fmt.Sprintf("Release returned while the pool was saturated with blocked jobs (W=%d Q=%d)", sc.W, sc.Q))
-			case <-time.After(25 * time.Millisecond):
+				fail("C19/release-returned-while-running", fmt.Sprintf("Release returned while the pool was saturated with blocked jobs, %v into a hold of %v (W=%d Q=%d)", time.Since(tRel).Round(time.Millisecond), hold, sc.W, sc.Q))
+			case <-time.After(hold):
 			}
 			close(gate)
 			if !waitCh(rel, "release-return-after-jobs-finished") {
@@ -593,6 +610,22 @@ func c19Gen(tier string, rng *rand.Rand) []c19Case {
 			}
 		}
 	}
+	// long jobs: Release is called while jobs that run for seconds occupy the workers
+	cs = append(cs, c19Case{Sc: c19Scenario{W: 2, Q: 1, Subs: 1, Jobs: 4, Dur: 0, Procs: procs[rng.Intn(3)], Mode: "saturated", Seed: rng.Int63(), Hold: 2600}})
+	if tier == "thorough" {
+		for _, h := range []int{4000, 6500, 11000} {
+			cs = append(cs, c19Case{Sc: c19Scenario{W: 1 + rng.Intn(3), Q: rng.Intn(3), Subs: 1, Dur: 0, Procs: procs[rng.Intn(3)], Mode: "saturated", Seed: rng.Int63(), Hold: h}})
+		}
+	}
+	// a connection accepted at the very moment of shutdown (pooled TCP server), one P and several
+	for _, p := range []int{1, 1, 2} {
+		cs = append(cs, c19Case{Sc: c19Scenario{W: 1, Q: 1 + rng.Intn(4), Subs: 1, Jobs: 1 + rng.Intn(3), Dur: rng.Intn(3), Procs: p, Mode: "tcp-late-accept", Seed: rng.Int63()}})
+	}
+	if tier == "thorough" {
+		for i := 0; i < 24; i++ {
+			cs = append(cs, c19Case{Sc: c19Scenario{W: 1 + rng.Intn(2), Q: rng.Intn(5), Subs: 1, Jobs: 1 + rng.Intn(3), Dur: rng.Intn(3), Procs: []int{1, 1, 2, 16}[i%4], Mode: "tcp-late-accept", Seed: rng.Int63()}})
+		}
+	}
 	// graceful shutdown of a loaded TCP server: requests of other connections wait in the pool while Shutdown is called
 	for _, w := range []int{1, 2} {
 		cs = append(cs, mk(w, 0, "tcp-shutdown"), mk(w, 0, "tcp-shutdown"))
@@ -645,7 +678,8 @@ func c19Coq(c *c19Case) string {
 		}
 	}
 	fifo := c.Sc.W == 1 && calls <= 200
-	return fmt.Sprintf("mkcase %d %s %s (unhex \"%s\"%%hex)", c.Sc.W, coqBool(c.Complete), coqBool(fifo), sb.String())
+	server := strings.HasPrefix(c.Sc.Mode, "tcp-") // carries "request read" events: also validated against the model of the pool's use
+	return fmt.Sprintf("mkcase %d %s %s %s (unhex \"%s\"%%hex)", c.Sc.W, coqBool(c.Complete), coqBool(fifo), coqBool(server), sb.String())
 }
 
 func init() {
@@ -653,10 +687,10 @@ func init() {
 	props["C19"] = func(a Args) {
 		runProp(Prop[c19Case]{
 			ID:       "C19",
-			Require:  "From TarsV Require Import Base.Hex Conc.Gpool.",
+			Require:  "From TarsV Require Import Base.Hex Conc.Gpool Conc.C19Case.",
 			CaseType: "tcase",
 			Mismatch: "c19_mismatch",
-			Corr:     "Gpool.accepts / accepts_complete (specification machine of the pool) on the recorded event trace; with one worker also Gpool.fifo1_ok (start order respects send order)",
+			Corr:     "Gpool.accepts / accepts_complete (specification machine of the pool) on the recorded event trace; with one worker also Gpool.fifo1_ok (start order respects send order); for the TCP server scenarios also PoolUse.puse_ok (read / start / end / Handle returned)",
 			Rule:     "distinct (W, Q, mode, job duration class, GOMAXPROCS, submitters bucket) configurations whose trace contains at least one job start and a Release",
 			Shard:    12,
 			Gen:      c19Gen,
@@ -696,6 +730,66 @@ func init() {
 			},
 			Extra: func(tier string, rng *rand.Rand, res *Result) {
 				res.Traces = len(res.Cases)
+				// what the recorded traces exercise (distribution of the correspondence inputs)
+				modes, ws, qs, shapes := map[string]int{}, map[string]int{}, map[string]int{}, map[string]int{}
+				for _, raw := range res.Cases {
+					var c c19Case
+					if json.Unmarshal(raw, &c) != nil {
+						continue
+					}
+					modes[c.Sc.Mode]++
+					ws[fmt.Sprintf("W%d", c.Sc.W)]++
+					qs[fmt.Sprintf("Q%d", c.Sc.Q)]++
+					calls, starts, relCall, relRet := 0, 0, -1, -1
+					startsAfterRelCall, callsAfterRelCall, callsAfterRelRet := 0, 0, 0
+					for i, e := range c.Trace {
+						switch e[0] {
+						case c19KSubCall:
+							calls++
+							if relCall >= 0 {
+								callsAfterRelCall++
+							}
+							if relRet >= 0 {
+								callsAfterRelRet++
+							}
+						case c19KStart:
+							starts++
+							if relCall >= 0 {
+								startsAfterRelCall++
+							}
+						case c19KRelCall:
+							relCall = i
+						case c19KRelRet:
+							relRet = i
+						}
+					}
+					if c.Sc.Mode == "race" {
+						switch {
+						case starts == 0:
+							shapes["race: released before any job started"]++
+						case starts < calls:
+							shapes["race: released with submitted jobs never started"]++
+						default:
+							shapes["race: every called job started"]++
+						}
+						if startsAfterRelCall > 0 {
+							shapes["race: jobs started between release-call and release-return"]++
+						}
+						if callsAfterRelCall > 0 {
+							shapes["race: submit calls after release-call"]++
+						}
+						if callsAfterRelRet > 0 {
+							shapes["race: submit calls after release-return"]++
+						}
+					}
+					if c.Sc.Q == 0 && starts > 0 {
+						shapes["Q=0: every send a hand-over to the dispatcher"]++
+					}
+				}
+				res.Stats["traces_by_mode"] = modes
+				res.Stats["traces_by_W"] = ws
+				res.Stats["traces_by_Q"] = qs
+				res.Stats["trace_shapes"] = shapes
 			},
 		}, a)
 	}
